@@ -4,6 +4,7 @@ import Sebuf.DriverC16
 import Sebuf.DriverC02
 import Sebuf.DriverC01
 import Sebuf.DriverC09
+import Sebuf.DriverC10
 namespace Sebuf.DriverOps
 open Lean (Json)
 def dispatch (op : String) (j : Json) : Json :=
@@ -16,6 +17,7 @@ def dispatch (op : String) (j : Json) : Json :=
   | "call_outcome" => Sebuf.Driver.opCallOutcome j
   | "client_url" => Sebuf.Driver.opClientUrl j
   | "header_check" => Sebuf.Driver.opHeaderCheck j
+  | "error_case" => Sebuf.Driver.opErrorCase j
   | "strfn" => Sebuf.Driver.opStrFn j
   | _ => Json.mkObj [("driver_err", Json.str ("unknown op " ++ op))]
 end Sebuf.DriverOps
